@@ -692,7 +692,8 @@ def run(P, rep, tier):
                        '(structural induction over the initializer tree); the sub-objects they visit, the bytes they store, the relocation cursor they thread, '
                        'the address-constant arms of eval2/eval_rval, string_initializer, lvar_initializer/gvar_initializer, init_desg_expr, the ND_MEMZERO/ND_COMMA arms of '
                        'gen_expr and the image walk of emit_data are compared with oracles transcribed from C11 6.7.9. Of the designator/brace-elision cursor logic of the '
-                       'parser only the resume position after a designator (R05.8, sibling agreement of the cursor-walk functions), whole-aggregate copy initialisation, '
+                       'parser only the resume position after a designator (R05.8, sibling agreement of the cursor-walk functions), whole-aggregate copy initialisation (taken exactly for an expression of the '
+                       'object\'s own type; an expression of any other type and a string literal for an array of non-character elements go to the first member/element by brace elision), '
                        'the completion of arrays of unknown bound / flexible array members (R05.9: declared element type, length from the initializer, final type handed to '
                        'the object) and the override of an earlier initializer of the same sub-object by a later one (R05.10: union member selection, scalar expression, '
                        'whole-struct copy expression) and the member lookup of a `.name` designator (R05.12: exact name match, members passed over differ, anonymous aggregates '
@@ -702,7 +703,7 @@ def run(P, rep, tier):
     rep.assumptions += ['calloc succeeds', 'loops over members/elements are analysed for 0..2 generic iterations; the facts checked are per-iteration facts',
                         'bit-field members have an integer type of size 1, 2, 4 or 8',
                         'formula rules compare normalised terms (commutativity of | and &); an equivalent rewrite outside that form would be reported']
-    rep.rule('R05.1', 'both back ends visit exactly the sub-objects C11 6.7.9 prescribes: array elements 0..len-1 at stride base->size, every struct member (no arm leaves the member walk), the chosen union member; a struct-valued initializer expression is honoured or diagnosed', floor=14)
+    rep.rule('R05.1', 'both back ends visit exactly the sub-objects C11 6.7.9 prescribes: array elements 0..len-1 at stride base->size, every struct member (no arm leaves the member walk), the chosen union member; a struct-valued initializer expression is honoured or diagnosed; the parser takes an expression as the value of a whole struct/union exactly when it has the object\'s own type (also through a copy_type() copy), any other expression initialises the first member by brace elision', floor=20)
     rep.rule('R05.2', 'the static back end stores every scalar type class with its own width and representation (or nothing when there is no initializer)', floor=14)
     rep.rule('R05.4', 'static bit-field merge is old | ((new & ((1 << width) - 1)) << offset), computed in 64 bits, read and written with the width of the storage unit', floor=4)
     rep.rule('R05.7', 'address constants: the relocation cursor is threaded through every recursive call and returned; a label+addend becomes a relocation at the element offset; eval2/eval_rval add member offsets', floor=13)
